@@ -70,8 +70,9 @@ type Run struct {
 	Seed  int64
 	Level string
 
-	start    time.Time
-	deadline time.Time
+	start      time.Time
+	deadline   time.Time
+	parforCall atomic.Int64
 
 	evals       atomic.Int64
 	states      atomic.Int64
@@ -221,6 +222,7 @@ func (r *Run) Fail(c Case, f *Failure) {
 // ParFor runs f(i) for i in [0,n) on all cores; index-sharded, so the explored
 // set is the same on every run. f returns false to stop its worker early (cap).
 func (r *Run) ParFor(n int, f func(i int)) {
+	call := r.parforCall.Add(1)
 	workers := runtime.GOMAXPROCS(0)
 	if workers > n {
 		workers = n
@@ -239,7 +241,9 @@ func (r *Run) ParFor(n int, f func(i int)) {
 				if i >= n {
 					return
 				}
+				noteSlot(i, fmt.Sprintf("parfor#%d index=%d", call, i))
 				f(i)
+				clearSlot(i)
 			}
 		}()
 	}
